@@ -267,7 +267,7 @@ RANKED_RULES = ['plurality', 'borda', 'borda0', 'dowdall', 'geometric', 'modifie
 
 ADDITIVE = {'plurality', 'borda', 'borda0', 'dowdall', 'geometric', 'modified_borda', 'fixed_top', 'sequence'}
 # a longer new ballot with the winner on top is also safe under Oklahoma (coefficients of the later places <= 1/2: C17_oklahoma_added)
-LONG_ADDED = ADDITIVE | {'oklahoma'}
+LONG_ADDED = ADDITIVE | {'oklahoma', 'minimax_margins', 'minimax_pwo'}
 
 
 def evalreg_cands(prof):
@@ -790,6 +790,104 @@ def sole_winner_shared(ctx, stream, count, rng):
     ctx.streams[stream] = dict(cases=n, deviations=bad)
 
 
+# ------------------------------------------------------------------ positional rules: the changed ballot WITH shared ranks
+# (Proofs/PositionalShared_proofs.v: C17_positional_shared / _leave_shared / _leave_pair / _rank_unranked / _added are about Model/Convert.v
+# [img_positional]; unit C13 `convert` kind positional is that model on the wire - stream pos-tie)
+POS_CFGS = [['borda', 1], ['borda', 0], ['dowdall', 0], ['geometric', 2], ['modified', 0], ['fixedtop', 3], ['sequence', [5, 3, 3, 1]]]
+
+
+def pos_evaluate(cfg, prof):
+    import votelib.evaluate.core as core
+    import props.c13 as c13
+    conv = c13.converter(dict(kind='positional', cfg=cfg))
+    votes = {}
+    for b, x in prof:
+        k = pa_py_ballot(b)
+        votes[k] = votes.get(k, 0) + x
+    return common.call_impl(lambda: core.PreConverted(conv, core.Plurality()).evaluate(votes, 1), 10)
+
+
+def positional_moves(b, w, others, rng):
+    """upward moves of w on a ballot with shared ranks: to a higher place / out of a shared rank to a place of its own (shared_moves);
+    an unranked w gets ranked at any place"""
+    if w in rc_flat(b):
+        for b2 in shared_moves(b, w, rng):
+            yield 'move', b2
+    else:
+        for j in range(len(b) + 1):
+            yield 'rank', b[:j] + [w] + b[j:]
+
+
+def positional_case_check(ctx, stream, case):
+    """re-evaluate one recorded change; -> True when the sole winner is lost"""
+    r0 = pos_evaluate(case['cfg'], case['profile'])
+    if r0[0] != 'ok' or sole_winner(r0[1]) != case['winner']:
+        return False
+    if case['what'] == 'added':
+        p2 = case['profile'] + [[case['new_ballot'], 1]]
+    else:
+        p2 = [[b, x - (1 if i == case['ballot'] else 0)] for i, (b, x) in enumerate(case['profile'])]
+        p2 = [bx for bx in p2 if bx[1] > 0] + [[case['new_ballot'], 1]]
+    r1 = pos_evaluate(case['cfg'], p2)
+    if r1[0] == 'ok' and sole_winner(r1[1]) == case['winner']:
+        return False
+    ctx.checker_false += 1
+    ctx.report(stream, case, str(r1[1:]), 'n/a', 'positional %s: sole winner %s no longer the sole winner after %s: %s'
+               % (case['cfg'], cname(case['winner']), ('adding the ballot %s' % case['new_ballot']) if case['what'] == 'added'
+                  else 'the change %s -> %s on one ballot' % (case['profile'][case['ballot']][0], case['new_ballot']), r1[1:]))
+    return True
+
+
+def sole_winner_positional_shared(ctx, stream, count, rng):
+    import props.c13 as c13
+    bad = n = 0
+    ties = []
+    for _ in range(count):
+        m = rng.randint(3, 5)
+        ids = list(range(1, m + 1))
+        prof, seen = [], set()
+        for _ in range(rng.randint(1, 6)):
+            b = gen_pa_ballot(rng, ids, rng.choice([0.2, 0.5]))
+            if not b or pa_py_ballot(b) in seen:
+                continue
+            seen.add(pa_py_ballot(b))
+            prof.append([b, rng.randint(1, 4)])
+        if not prof:
+            continue
+        cfg = rng.choice(POS_CFGS)
+        ctx.evaluations += 1
+        ctx.dist['stream:' + stream] += 1
+        r0 = pos_evaluate(cfg, prof)
+        w = sole_winner(r0[1]) if r0[0] == 'ok' else None
+        if w is None:
+            continue
+        cands = sorted({k for b, _ in prof for k in rc_flat(b)})
+        others = [k for k in cands if k != w]
+        changes = []
+        for bi, (b, _) in enumerate(prof):
+            for what, b2 in positional_moves(b, w, others, rng):
+                if what == 'rank' or n_shared(b) or n_shared(b2):
+                    changes.append((what, bi, b2))
+        if others:
+            for _ in range(2):
+                rest = gen_pa_ballot(rng, others, rng.choice([0.3, 0.6]))
+                changes.append(('added', None, [w] + rest))
+        for what, bi, b2 in changes:
+            n += 1
+            case = dict(kind='sole-positional', what=what, cfg=cfg, profile=prof, ballot=bi, new_ballot=b2, winner=w)
+            ctx.evaluations += 1
+            ctx.nontrivial.add(common.case_hash(case))
+            ctx.dist['positional-shared:%s' % what] += 1
+            if positional_case_check(ctx, stream, case):
+                bad += 1
+            elif rng.random() < 0.06:
+                p2 = rc_replace(prof + [[b2, 1]], len(prof), b2, 1) if what == 'added' else rc_replace(prof, bi, b2, 1)
+                ties.append(dict(kind='positional', cfg=cfg, votes=prof))
+                ties.append(dict(kind='positional', cfg=cfg, votes=p2))
+    ctx.streams[stream] = dict(cases=n, deviations=bad)
+    ctx.differential('pos-tie', ties, c13.model_line, c13.impl, canon=c13.canon, nontrivial=lambda c: True)
+
+
 # ------------------------------------------------------------------ RankedToCondorcetVotes: model tie + the exact effect of ONE moved ballot
 # (Proofs/RaisesBallot_proofs.v: pairwise_move_exact / pairwise_move_cands / copeland_ballot_monotone / minimax_ballot_monotone are
 # about Model/Hybrids.v [pairwise]; unit C05+2 is that model on the wire)
@@ -897,8 +995,105 @@ def rc_move_check(ctx, stream, case):
     return False
 
 
+def rc_pair_coef(cs, r, a, c):
+    """what one unit of ballot r adds to count(a, c) (unranked_at_bottom=True; cs = the candidates of the profile): a on a higher rank than c,
+    or a ranked and c not ranked on r"""
+    pos = {}
+    for i, it in enumerate(r):
+        for k in (it if isinstance(it, list) else [it]):
+            pos.setdefault(k, []).append(i)
+    n = sum(1 for i in pos.get(a, []) for j in pos.get(c, []) if i < j)
+    if c not in pos and c in cs:
+        n += len(pos.get(a, []))
+    return n
+
+
+def rc_delta_check(ctx, stream, case):
+    """C17_ballot_rank_exact / C17_ballot_added_exact / C17_ballot_bullet_exact on the implementation, and the sole winner where proved.
+    kind rc-rank: candidate w, not on ballot bi, gets ranked at place j on x units of it; kind rc-added: x units of the ballot `new_ballot`
+    (w alone on top) are added.  -> True if it fails"""
+    prof, x, w = case['profile'], case['x'], case['cand']
+    cs = sorted({k for b, _ in prof for k in rc_flat(b)})
+    if case['kind'] == 'rc-rank':
+        b = prof[case['ballot']][0]
+        b2 = b[:case['j']] + [w] + b[case['j']:]
+        p2 = rc_replace(prof, case['ballot'], b2, x)
+        below = rc_flat(b[case['j']:])
+        still = [k for k in cs if k not in rc_flat(b2)]
+        exp = lambda a, c: x * ((1 if a == w else 0) * (below.count(c) + still.count(c)) - below.count(a) * (1 if c == w else 0))     # noqa
+        proved = PAIRWISE_MONO
+    else:
+        b2 = case['new_ballot']
+        p2 = [[bb, wt] for bb, wt in prof]
+        for y in p2:
+            if pa_py_ballot(y[0]) == pa_py_ballot(b2):
+                y[1] += x
+                break
+        else:
+            p2.append([b2, x])
+        exp = lambda a, c: x * rc_pair_coef(cs, b2, a, c)     # noqa
+        proved = PAIRWISE_MONO if len(b2) == 1 else ['minimax_margins', 'minimax_pwo']
+    r0 = common.call_impl(lambda: rc_convert(prof), 10)
+    r1 = common.call_impl(lambda: rc_convert(p2), 10)
+    if r0[0] != 'ok' or r1[0] != 'ok':
+        if r0[0] != r1[0]:
+            ctx.checker_false += 1
+            ctx.report(stream, case, str(r1[1:]), str(r0[1:]), 'RankedToCondorcetVotes: one of the two conversions failed: %s / %s' % (r0, r1))
+            return True
+        return False
+    d0, d1 = r0[1], r1[1]
+    why = None
+    for a in cs:
+        for c in cs:
+            if a != c and d1.get((a, c), 0) != d0.get((a, c), 0) + exp(a, c):
+                why = 'count(%s, %s) is %s after %s, expected %s + %s' % (cname(a), cname(c), d1.get((a, c), 0),
+                      ('%s was ranked on ballot %s -> %s' % (cname(w), prof[case['ballot']][0], b2)) if case['kind'] == 'rc-rank' else 'the ballot %s was added' % b2,
+                      d0.get((a, c), 0), exp(a, c))
+                break
+        if why:
+            break
+    if not why and d0 and {k for pr in d0 for k in pr} != {k for pr in d1 for k in pr}:
+        why = 'the candidates of the pairwise dictionary changed: %s -> %s' % (sorted({k for pr in d0 for k in pr}), sorted({k for pr in d1 for k in pr}))
+    if not why and case.get('rule') in proved:
+        import votelib.evaluate.condorcet as cd
+        ev = cd.EVALUATORS[case['rule']]
+        py = lambda d: {(cname(a), cname(c)): n for (a, c), n in d.items()}     # noqa
+        e0 = common.call_impl(lambda: ev.evaluate(py(d0), 1), 10)
+        if e0[0] == 'ok' and sole_winner(e0[1]) == w:
+            ctx.dist['%s:sole-winner' % case['kind']] += 1
+            e1 = common.call_impl(lambda: ev.evaluate(py(d1), 1), 10)
+            if not (e1[0] == 'ok' and sole_winner(e1[1]) == w):
+                why = '%s: sole winner %s no longer the sole winner (%s): %s' % (case['rule'], cname(w), case['kind'], e1[1:])
+    if why:
+        ctx.checker_false += 1
+        ctx.report(stream, case, str(sorted(d1.items())), str(sorted(d0.items())), why)
+        return True
+    return False
+
+
+def rc_delta_cases(rng, prof, w0, rule):
+    """for one profile: the sole winner (or, when there is none, any candidate) gets ranked on ballots that leave it out; ballots with it on top are added"""
+    cs = sorted({k for b, _ in prof for k in rc_flat(b)})
+    if not cs:
+        return
+    w = w0 if w0 is not None else rng.choice(cs)
+    outs = [bi for bi, (b, wt) in enumerate(prof) if w not in rc_flat(b) and wt >= 1]
+    rng.shuffle(outs)
+    for bi in outs[:2]:
+        b, wt = prof[bi]
+        for x in {1, wt}:
+            yield dict(kind='rc-rank', profile=prof, ballot=bi, j=rng.randint(0, len(b)), x=x, cand=w, rule=rule)
+    others = [k for k in cs if k != w]
+    yield dict(kind='rc-added', profile=prof, new_ballot=[w], x=rng.randint(1, 3), cand=w, rule=rule)
+    if others:
+        rest = gen_pa_ballot(rng, others, rng.choice([0, 0.3]))
+        if rest:
+            yield dict(kind='rc-added', profile=prof, new_ballot=[w] + rest, x=rng.randint(1, 3), cand=w, rule=rule)
+
+
 def rc_streams(ctx, count, rng):
     ties, n, bad = [], 0, 0
+    nd = badd = 0
     for _ in range(count):
         prof = gen_rc_profile(rng)
         if not prof:
@@ -917,6 +1112,15 @@ def rc_streams(ctx, count, rng):
         moves += [(bi, i, j, m) for bi, (b, _) in enumerate(prof) for i, it in enumerate(b) if isinstance(it, list) and len(it) > 1
                   for m in it if (w0 is None or m == w0) for j in range(i + 1)]
         rng.shuffle(moves)
+        for case in rc_delta_cases(rng, prof, w0, rule):
+            nd += 1
+            ctx.evaluations += 1
+            ctx.dist['stream:rc-rank-added-exact'] += 1
+            ctx.nontrivial.add(common.case_hash(case))
+            if case['kind'] == 'rc-added' and len(case['new_ballot']) > 1:
+                ctx.dist['rc-added:longer-ballot'] += 1
+            if rc_delta_check(ctx, 'rc-rank-added-exact', case):
+                badd += 1
         for bi, i, j, member in moves[:4]:
             wt = prof[bi][1]
             for x in {1, wt} if wt >= 1 else {0}:
@@ -936,6 +1140,7 @@ def rc_streams(ctx, count, rng):
                     ties.append(dict(unit='hybrid', method='to_condorcet', n=1,
                                      profile=rc_replace(prof, bi, b[:j] + [b[i]] + b[j:i] + b[i + 1:], x)))
     ctx.streams['rc-move-exact'] = dict(cases=n, deviations=bad)
+    ctx.streams['rc-rank-added-exact'] = dict(cases=nd, deviations=badd)
     ctx.differential('rc-tie', ties, c05.hyb_line, c05.hyb_impl, canon=c05.hyb_canon, nontrivial=lambda c: True)
 
 
@@ -1064,6 +1269,12 @@ def run_corpus_case(ctx, c, stream='corpus'):
     elif k == 'rc-move':
         ctx.evaluations += 1
         rc_move_check(ctx, stream, c)
+    elif k in ('rc-rank', 'rc-added'):
+        ctx.evaluations += 1
+        rc_delta_check(ctx, stream, c)
+    elif k == 'sole-positional':
+        ctx.evaluations += 1
+        positional_case_check(ctx, stream, c)
     elif k == 'scorer':
         ctx.evaluations += 1
         scorer_check(ctx, stream, c)
@@ -1108,6 +1319,7 @@ def explore(ctx, widen=1):
     sole_winner_ranked(ctx, 'sole-winner-ranked', ctx.n(8000, 60000) * widen, rng)
     sole_winner_ranked(ctx, 'sole-winner-beatpath', ctx.n(3000, 20000) * widen, rng, beatpath=True)
     sole_winner_shared(ctx, 'sole-winner-shared-ranks', ctx.n(2500, 30000) * widen, rng)
+    sole_winner_positional_shared(ctx, 'sole-winner-positional-shared', ctx.n(1500, 20000) * widen, rng)
     sole_winner_cardinal(ctx, 'sole-winner-cardinal', ctx.n(1500, 15000) * widen, rng)
     rc_streams(ctx, ctx.n(2500, 30000) * widen, rng)
     scorer_stream(ctx, rng)
